@@ -163,6 +163,13 @@ def _fromtimestamp(t, tz=None):
     return ADT(None, {"LOCAL": 1}) if tz is None else ADT(_zone_of(tz))
 
 
+def _from_fields(a, k):
+    if len(a) >= 6 and all(isinstance(x, tuple) and x[:1] == ("LT",) for x in a[:6]) and [x[1] for x in a[:6]] == list(range(6)) \
+            and not k.get("tzinfo") and "fold" not in k:
+        return ADT(None, {"LOCAL": 1}, fold_ok=False)
+    raise AnalysisError("C18: datetime(...) constructed from fields outside the frame language")
+
+
 DT_EXT = {
     "datetime.datetime.now": _now,
     "datetime.datetime.fromtimestamp": _fromtimestamp,
@@ -170,6 +177,9 @@ DT_EXT = {
     "datetime.datetime.utcnow": lambda: ADT(None, {}, inst="now"),
     "datetime.timedelta": lambda *a, **k: Delta(),
     "datetime.timezone.utc": None,
+    # time.localtime(t)[:6] fed to the datetime constructor: the wall clock of t in local time, but fold is always 0
+    "time.localtime": lambda t=None: tuple(("LT", i) for i in range(9)),
+    "datetime.datetime": lambda *a, **k: _from_fields(a, k),
     "os.path.getmtime": lambda p: 1234.5,
     "os.stat": lambda p: Obj(None, {"st_mtime": 1234.5, "st_mtime_ns": 1234500000000}),
     "builtins.divmod": lambda a, b: divmod(a, b),
